@@ -45,10 +45,14 @@ def alias_shape(a):
 class Builder(object):
     """builds a real python structure from an abstract tree; keeps the tensors per alias id"""
 
-    def __init__(self, rng):
+    def __init__(self, rng, share=False):
         self.tensors = {}
         self.nl = 0
         self.rng = rng
+        # share: structurally identical containers that hold a tensor are realised as ONE python object referred to from several places
+        self.share = share
+        self.memo = {}
+        self.nshared = 0
         # how distinct tensor ids are realised: separate storages | distinct tensor OBJECTS that are views of one storage
         # starting at the same address (w, w.detach(), w.view(...): identity, not storage, is what makes a tensor unique)
         self.mode = rng.choice(["separate", "separate", "shared", "shared+empty"])
@@ -79,6 +83,18 @@ class Builder(object):
             return _NLEAVES[self.nl % len(_NLEAVES)]()
         if k == "Tup":
             return (7, torch.tensor([9.0]), "x")
+        key = None
+        if self.share and '"T"' in json.dumps(t) and '"N"' not in json.dumps(t):
+            key = json.dumps(t, sort_keys=True)
+            if key in self.memo:
+                self.nshared += 1
+                return self.memo[key]
+        o = self._build_container(t, k)
+        if key is not None:
+            self.memo[key] = o
+        return o
+
+    def _build_container(self, t, k):
         kids = [self.build(c) for c in t["c"]]
         if k == "L":
             return kids
@@ -165,10 +181,10 @@ def packer_snapshot(pk, t):
 class Driver(object):
     """drives one real Packer along abstract actions and projects the outcomes"""
 
-    def __init__(self, tree, rng):
+    def __init__(self, tree, rng, share=False):
         from xitorch import Packer
         self.tree = tree
-        self.b = Builder(rng)
+        self.b = Builder(rng, share)
         self.obj = self.b.build(tree)
         self.alias_of = {id(v): a for a, v in self.b.tensors.items()}
         self.orig_snap = snapshot(self.obj, tree)
@@ -271,7 +287,15 @@ class Driver(object):
         orig = {c[0] for c in containers(self.obj, self.tree, [])} | {c[0] for c in
                                                                        containers(self.pk._obj, self.tree, [])}
         copied = not (fresh & orig) and values_equal(res, self.obj, self.tree)
-        return {"kind": "built", "result": result, "copied": copied}
+        out = {"kind": "built", "result": result, "copied": copied}
+        if self.b.nshared:
+            # a container referred to from several places is ONE object in the rebuilt structure too (and only then)
+            io = [c[0] for c in containers(self.obj, self.tree, [])]
+            ir = [c[0] for c in containers(res, self.tree, [])]
+            if len(io) != len(ir) or any((io[i] == io[j]) != (ir[i] == ir[j]) for i in range(len(io)) for j in range(i)):
+                out["copied"] = False
+                out["note"] = "containers shared between positions of the original are not shared in the same way in the rebuilt structure"
+        return out
 
 
 def _index_by_identity(sup, x):
@@ -403,13 +427,27 @@ def n_listed(tree, u):
     return len(set(ids)) if u else len(ids)
 
 
-def record_trace(tid, tree, rng, nev):
+def shared_tree(rng):
+    """a structure in which one container holding tensors occurs at several positions, with further content around / after it"""
+    def leafs(n, maxalias):
+        return [random_tree(rng, 0, 0, maxalias) for _ in range(n)]
+    while True:
+        S = random_tree(rng, rng.choice([1, 2]), 3, 3)
+        if "c" in S and '"T"' in json.dumps(S) and '"N"' not in json.dumps(S):
+            break
+    second = S if rng.random() < 0.5 else {"k": rng.choice(["L", "D", "O"]), "c": [S] + leafs(rng.randint(0, 2), 5)}
+    kids = leafs(rng.randint(0, 1), 5) + [S] + leafs(rng.randint(0, 2), 5) + [second] + leafs(rng.randint(0, 2), 5)
+    return {"k": rng.choice(["L", "D", "O"]), "c": kids}
+
+
+def record_trace(tid, tree, rng, nev, share=False):
     tree = canon_tree(tree, {})
-    d = Driver(tree, rng)
+    d = Driver(tree, rng, share)
     evs = []
     for _ in range(nev):
         act, sk = rng.choice(ACTIONS)
-        u = rng.random() < 0.5
+        # (a shared container is written once per reference: position-wise refilling is only meaningful through the unique interface)
+        u = True if share and act in ("CList", "CTensor") else rng.random() < 0.5
         if act == "CList" and sk in ("short", "badshape") and n_listed(tree, u) == 0:
             sk = "good"
         evs.append(d.call(act, u, sk))
@@ -519,6 +557,10 @@ def run(ctx):
     for tid in range(1, ntr + 1):
         tree = random_tree(rng, rng.choice([1, 2, 3, 3]), 3, rng.choice([1, 2, 3, 4]))
         traces.append(record_trace(tid, tree, rng, rng.randint(3, 8)))
+    # the same with containers that are shared between several positions of the structure (unique interface for the refill)
+    rng2 = random.Random(ctx.seed * 31 + 5)
+    for tid in range(ntr + 1, ntr + 1 + (400 if thorough else 100)):
+        traces.append(record_trace(tid, shared_tree(rng2), rng2, rng2.randint(3, 6), share=True))
     rej = ctx.validate_traces("Trace_Packer.tla", "Trace_Packer.cfg", traces)
     bytid = {t["tid"]: t for t in traces}
     for tid, matched, total in rej:
@@ -551,7 +593,7 @@ def run(ctx):
     ctx.notes["corrupted_traces_rejected"] = len(bad)
     ctx.exhaustive = True
     ctx.assumptions += [
-        "structures: lists, dicts, plain attribute objects, tensors, opaque leaves (numbers, strings, sets, bytearrays, tuples); containers are not shared between positions",
+        "structures: lists, dicts, plain attribute objects, tensors, opaque leaves (numbers, strings, sets, bytearrays, tuples); containers shared between positions only in the dedicated traces (refilled through the unique interface)",
         "an unmet call-order precondition may raise any exception (weakest reading)",
         "for a structure without tensors construct_from_tensor accepts any tensor (no valid flat tensor exists)",
         "TLC, SANY, the projection functions in harness/props/c20.py"]
